@@ -153,7 +153,45 @@ def make_angle_model():
     return A()
 
 
-def one_run(cfg, outdir):
+def cfg_diff(a, b, path=""):
+    """differences between the caller's configuration before (a) and after (b): removed / changed / added entries"""
+    out = []
+    if isinstance(a, dict) and isinstance(b, dict):
+        for k in sorted(set(a) | set(b), key=str):
+            if k not in a:
+                out.append({"kind": "added", "path": f"{path}/{k}", "after": repr(b[k])[:80]})
+            elif k not in b:
+                out.append({"kind": "removed", "path": f"{path}/{k}", "before": repr(a[k])[:80]})
+            else:
+                out += cfg_diff(a[k], b[k], f"{path}/{k}")
+    elif isinstance(a, (list, tuple)) and isinstance(b, (list, tuple)) and len(a) == len(b) and type(a) is type(b):
+        for i, (x, y) in enumerate(zip(a, b)):
+            out += cfg_diff(x, y, f"{path}[{i}]")
+    else:
+        try:
+            same = type(a) is type(b) and (np.array_equal(a, b) if isinstance(a, np.ndarray) else bool(a == b))
+        except Exception:
+            same = False
+        if not same:
+            out.append({"kind": "changed", "path": path, "before": repr(a)[:80], "after": repr(b)[:80]})
+    return out
+
+
+def user_settings(cfg):
+    """the settings objects a user script would build ONCE and hand to every run"""
+    if cfg.get("layout") == "deprecated":       # training keys and a model_config sub-dict inside flow_config
+        user = {"flow_config": {"max_epochs": 20, "patience": 5, "model_config": {"n_blocks": 2, "n_neurons": 8}}}
+    else:
+        user = copy.deepcopy(FLOW)
+    extra = copy.deepcopy(cfg.get("extra") or {})
+    for k_ in ("flow_config", "training_config"):
+        if k_ in extra:
+            user[k_] = dict(user.get(k_, {}), **extra.pop(k_))
+    user.update(extra)
+    return user
+
+
+def one_run(cfg, outdir, user=None):
     import torch
     torch.set_num_threads(1)
     from nessai.flowsampler import FlowSampler
@@ -162,7 +200,11 @@ def one_run(cfg, outdir):
     if cfg.get("parallelise_prior"):
         model.parallelise_prior = True
     kw = dict(nlive=cfg.get("nlive", 50), plot=False, seed=cfg["seed"], signal_handling=False, output=outdir,
-              resume=False, checkpointing=False, **copy.deepcopy(FLOW))     # nessai mutates the config dicts
+              resume=False, checkpointing=False)
+    shared = user is not None
+    if not shared:
+        user = user_settings(cfg)            # a fresh copy per run (nessai adds keys to the dicts it is given)
+    before = copy.deepcopy(user)
     pool = None
     if cfg.get("user_pool"):
         import multiprocessing
@@ -181,13 +223,8 @@ def one_run(cfg, outdir):
                   poolsize=cfg.get("poolsize", 100))
     else:
         kw.update(importance_nested_sampler=True, max_iteration=cfg.get("max_iteration", 3), min_samples=10)
-    extra_kw = dict(cfg.get("extra") or {})
-    for k_ in ("flow_config", "training_config"):
-        if k_ in extra_kw:
-            kw[k_] = dict(kw[k_], **extra_kw.pop(k_))
-    kw.update(extra_kw)
     try:
-        fs = FlowSampler(model, **kw)
+        fs = FlowSampler(model, **kw, **user)          # the user's objects themselves, not copies
         fs.run(plot=False, save=False, **(cfg.get("run_kwargs") or {}))
         ns = fs.ns
         if cfg["sampler"] == "std":
@@ -210,6 +247,8 @@ def one_run(cfg, outdir):
         if cfg["sampler"] == "ins" and getattr(ns, "final_samples_unit", None) is not None:
             parts["final_samples"] = h(ns.final_samples_unit)
         return {"parts": parts, "evals": evals, "iteration": int(ns.iteration), "sites": sorted(SITES),
+                "shared_settings": shared, "settings_diff": cfg_diff(before, user),
+                "stopping_criterion": list(getattr(ns, "stopping_criterion", []) or []),
                 "requested_seed": cfg["seed"], "recorded_seed": None if ns.seed is None else int(ns.seed),
                 "vectorised": bool(getattr(model, "_vectorised_likelihood", None)), "n_pool": getattr(model, "n_pool", None),
                 **extra}
@@ -225,12 +264,15 @@ def run_runs(job):
     from nessai.utils.logging import setup_logger
     setup_logger(output=None, log_level="CRITICAL")
     logging.disable(logging.CRITICAL)
+    import warnings
+    warnings.filterwarnings("ignore")
     out = []
     for cfg in job["runs"]:
         res = {"name": cfg["name"], "cfg": cfg, "reps": []}
+        user = user_settings(cfg) if cfg.get("shared") else None       # ONE set of objects for every run of the group
         for k in range(cfg.get("repeat", 1)):
             try:
-                res["reps"].append(one_run(cfg, os.path.join(job["root"], f"{cfg['name']}_{k}")))
+                res["reps"].append(one_run(cfg, os.path.join(job["root"], f"{cfg['name']}_{k}"), user))
             except Exception as e:
                 import traceback
                 res["reps"].append({"error": type(e).__name__, "trace": traceback.format_exc()[-1500:]})
